@@ -99,14 +99,18 @@ pub fn unhex(h: &str) -> f64 {
     f64::from_bits(u64::from_str_radix(h, 16).expect("hex bits"))
 }
 
+/// index 99 stands for the whole reserved key text (spec/MC_C06.tla)
+pub const RESERVED_KEY_INDEX: u64 = 99;
+
 pub fn cs_to_string(cs: &J) -> String {
-    cs.as_array()
-        .map(|a| {
-            a.iter()
-                .map(|i| ALPHABET[(i.as_u64().expect("char index") as usize) - 1])
-                .collect()
-        })
-        .unwrap_or_default()
+    let mut out = String::new();
+    if let Some(a) = cs.as_array() {
+        for i in a {
+            let i = i.as_u64().expect("char index");
+            if i == RESERVED_KEY_INDEX { out.push_str("__blots_function"); } else { out.push(ALPHABET[i as usize - 1]); }
+        }
+    }
+    out
 }
 
 pub fn string_to_cs(s: &str) -> Option<J> {
